@@ -30,7 +30,7 @@ RULE = (
     "quadrant of est yaw, quadrant of gt yaw, |d| bucket)"
 )
 ASSUMPTIONS = ["roll and pitch <= 0.05 rad; for tilted boxes the yaw is convention dependent to second order, tolerance 2*tilt^2", "yaw-only boxes: weight tolerance 1e-9, error tolerance 1e-9"]
-DECIDING = ["TPMetricsAph.get_value.checked", "get_heading_error.checked", "C09.negative_yaw_ego_pairs", "C09.sign_checked", "C09.frame_checked", "C09.symmetry_checked", "C09.derived_checked", "C09.result_object_checked", "C09.label_policy_checked", "C09.ap_tp_lists_checked", "C09.polygon_shapes_checked"]
+DECIDING = ["TPMetricsAph.get_value.checked", "get_heading_error.checked", "C09.negative_yaw_ego_pairs", "C09.sign_checked", "C09.frame_checked", "C09.symmetry_checked", "C09.derived_checked", "C09.result_object_checked", "C09.label_policy_checked", "C09.ap_tp_lists_checked", "C09.polygon_shapes_checked", "C09.classes_checked"]
 JOBS = {"quick": 2, "thorough": 14}
 
 
@@ -200,6 +200,13 @@ def one(ctx: Ctx, workload: str, idx: int, ye: float, yg: float, ego_yaws, roll:
         for ep, gp in ((as_polygon(e0), g0), (e0, as_polygon(g0)), (as_polygon(e0), as_polygon(g0))):
             ctx.count("C09.polygon_shapes_checked")
             ctx.check(close(weight(ep, gp), base, tol, 0), "C09/aph_weight_depends_on_shape_representation", dict(est_yaw=ye, gt_yaw=yg, box_pair=base, with_polygon=weight(ep, gp)), "TPMetricsAph.get_value")
+    # ... nor on which class the pair belongs to (same-label pairs of every class, unknown included)
+    for lab in ("unknown", "pedestrian", "bus", "bicycle") if idx % 2 == 0 else ("unknown",):
+        e_c = O.obj3d(3.0, 1.0, 0.0, ye, lab=lab, roll=roll, pitch=pitch)
+        g_c = O.obj3d(3.2, 1.1, 0.0, yg, lab=lab)
+        w_c = APH.get_value(DynamicObjectWithPerceptionResult(e_c, g_c, MatchingLabelPolicy.DEFAULT))
+        ctx.count("C09.classes_checked")
+        ctx.check(close(w_c, base, tol, 0), "C09/aph_weight_depends_on_the_class_of_the_pair", dict(est_yaw=ye, gt_yaw=yg, label=lab, car_pair=base, this_pair=w_c), "TPMetricsAph.get_value")
     # the error a result object reports is that of its own pair (estimate against its ground truth)
     rep = DynamicObjectWithPerceptionResult(e0, g0).heading_error
     own = e0.get_heading_error(g0)
